@@ -120,6 +120,9 @@ type IPTables struct {
 	// FailAt > 0 makes the FailAt-th modifying call from now on fail without any effect (an exec error of the iptables binary)
 	FailAt int
 	Failed []string
+	// BeforeSave, if set, runs at the start of every SaveInto (iptables-save): the harness uses it to let something else happen
+	// in the middle of a synchronisation pass
+	BeforeSave func()
 	// Benign marks rejections that galaxy provokes on purpose and handles (e.g. flushing a chain that does not exist)
 }
 
@@ -406,6 +409,9 @@ func (f *IPTables) saveLocked(table string, buf *bytes.Buffer) {
 }
 
 func (f *IPTables) SaveInto(table utiliptables.Table, buffer *bytes.Buffer) error {
+	if hook := f.BeforeSave; hook != nil {
+		hook()
+	}
 	f.mu.Lock()
 	defer f.mu.Unlock()
 	f.saveLocked(string(table), buffer)
